@@ -44,7 +44,7 @@ class C15(Check):
                    'shutdown order is required for every configured attachment between existing modules, whether or '
                    'not it was used before']
     PROBES = ('c15.attachment-edge', 'c15.cyclic', 'c15.missing-target', 'c15.wrong-type', 'c15.pinata', 'c15.shared-io',
-              'c15.failing-init', 'c15.hanging-first-poll', 'c15.configured-write', 'c15.shutdown-during-read', 'c15.restart', 'c15.attached-to-dynamic-module', 'fault.start-up-write-comfail',
+              'c15.failing-init', 'c15.hanging-first-poll', 'c15.configured-write', 'c15.shutdown-during-read', 'c15.restart', 'c15.attached-to-dynamic-module', 'c15.polled-by-attached-io', 'fault.start-up-write-comfail',
               'c15.unexported-module', 'fault.first-read-comfail')
 
     def gen_case(self, rng, tier):
@@ -104,11 +104,19 @@ class C15(Check):
         for i, m in enumerate(mods):
             for j, a in enumerate(m['atts']):
                 a['attr'] = f'att{j}'
+        shared_io = rng.random() < 0.25
+        if not shared_io and rng.random() < 0.35:
+            # attachments with the name 'io': the module is then polled by the poll thread of the module it is attached
+            # to (chains user -> multiplexer -> bus included)
+            for m in mods:
+                oks = [a for a in m['atts'] if a['kind'] == 'ok']
+                if oks and rng.random() < 0.6:
+                    oks[0]['attr'] = 'io'
         decl = list(range(n))
         rng.shuffle(decl)
         shape = {'p_switch': rng.choice([0.1, 0.3]), 'line_gaps': rng.choice([0, 0, 10]),
                  'mods': mods, 'decl': decl, 'err': err,
-                 'pinata': pinata, 'pin_pos': pin_pos, 'shared_io': rng.random() < 0.25,
+                 'pinata': pinata, 'pin_pos': pin_pos, 'shared_io': shared_io,
                  'hang': rng.random() < 0.06, 'run_time': rng.choice([0.5, 3.0]),
                  'shutdown_in_read': rng.random() < 0.3, 'read_dur': rng.choice([0.1, 0.2, 0.3, 0.7]),
                  # Server.run() after Server.restart(): shut down, then the same configuration is started again in
@@ -486,12 +494,20 @@ class C15(Check):
         # (a communication failure during the first round makes the poll thread give up that round at once and
         # report itself started, by design: the other modules served by the same thread are not waited for then)
         shared = [mm['name'] for i, mm in enumerate(shape['mods']) if shape['shared_io'] and i < 2 and not mm['comm']]
+
+        def owner(mm):
+            # the module whose poll thread serves mm
+            for a in mm['atts']:
+                if a.get('attr') == 'io' and a['kind'] == 'ok':
+                    return a['to']
+            return 'shared-io' if mm['name'] in shared else mm['name']
+        if any(a.get('attr') == 'io' for mm in shape['mods'] for a in mm['atts']):
+            bump('c15.polled-by-attached-io')
         gave_up = set()
         for mm in shape['mods']:
             if mm.get('first_comfail') and mm['poll']:
                 gave_up.add(mm['name'])
-                if mm['name'] in shared:
-                    gave_up.update(shared)
+                gave_up.update(x['name'] for x in shape['mods'] if owner(x) == owner(mm))
         for m in shape['mods']:
             if m['name'] in gave_up:
                 continue
